@@ -7,6 +7,7 @@ import (
 	"fmt"
 	"strings"
 	"sync"
+	"sync/atomic"
 	"time"
 
 	"go.amzn.com/verifharness/vh"
@@ -24,6 +25,10 @@ type c06Desc struct {
 	Timing string  `json:"invoke_timing"` // early (with init in progress) | late (after the fault happened)
 	RtResp string  `json:"rt_response"`   // for faults during an invocation: "before" (runtime responded first) | "withheld"
 	Second *c06Second `json:"second,omitempty"`
+	// After: a different fault in the generation that follows the recovery ("" | rtcrash | extcrash); with
+	// ShutdownReport the healthy extensions of the failed generation report an exit error when they are shut down
+	After          string `json:"after,omitempty"`
+	ShutdownReport bool   `json:"shutdown_report,omitempty"`
 	HookDelay map[string]int `json:"hook_delay_ms,omitempty"`
 }
 
@@ -44,6 +49,9 @@ func (d c06Desc) id() string {
 	}
 	for _, k := range sortedKeysInt(d.HookDelay) {
 		s += fmt.Sprintf("/%s=%d", k, d.HookDelay[k])
+	}
+	if d.After != "" {
+		s += fmt.Sprintf("/then-%s-sr%v", d.After, d.ShutdownReport)
 	}
 	return s
 }
@@ -96,6 +104,23 @@ func genC06(tier string, seed int64) []Case {
 							add(c06Desc{Who: fmt.Sprintf("e%d", k), Fault: f, Exit: ex, NExt: nExt, Timing: tm, RtResp: "withheld"})
 						}
 					}
+				}
+			}
+		}
+	}
+	// a fault, recovery, then a DIFFERENT fault in the next generation: the second failure must name its own
+	// fault, whatever was reported while the first generation was being torn down
+	for _, nExt := range []int{1, 2} {
+		for _, first := range []c06Desc{
+			{Who: "rt", Fault: "afterNext", Exit: vh.Exit{Code: 3}}, {Who: "rt", Fault: "idle", Exit: vh.Exit{Signal: 9}},
+			{Who: "e0", Fault: "afterFirstEvent", Exit: vh.Exit{Code: 3}}, {Who: "rt", Fault: "beforeNext", Exit: vh.Exit{Code: 0}},
+			{Who: "e0", Fault: "afterExitErrorReportEvent", Exit: vh.Exit{Code: 3}},
+		} {
+			for _, after := range []string{"rtcrash", "extcrash"} {
+				for _, sr := range []bool{false, true} {
+					d := first
+					d.NExt, d.Timing, d.RtResp, d.After, d.ShutdownReport = nExt, "early", "withheld", after, sr
+					add(d)
 				}
 			}
 		}
@@ -174,6 +199,7 @@ func runC06(c *Ctx, d c06Desc) {
 	firstReturned := make(chan struct{})
 	rtResponded := make(chan struct{})
 	var rtRespOnce sync.Once
+	var afterPhase int32
 	faultFor := func(who string) (string, vh.Exit) {
 		if d.Who == who {
 			return d.Fault, d.Exit
@@ -188,6 +214,14 @@ func runC06(c *Ctx, d c06Desc) {
 	w.RtPlan = func(gen int, p *vh.Proc) vh.ExecPlan {
 		if gen != 1 {
 			return vh.ExecPlan{Behave: w.RtLoop(RtOpts{Handle: func(p *vh.Proc, pt *vh.Party, n int, ev *vh.Resp) *vh.Exit {
+				if d.After == "rtcrash" && atomic.LoadInt32(&afterPhase) == 1 {
+					return &vh.Exit{Signal: 11}
+				}
+				if d.After == "extcrash" && atomic.LoadInt32(&afterPhase) == 1 {
+					// the extension's crash is the fault of this invocation: the runtime never gets to answer
+					<-p.Ctx.Done()
+					return nil
+				}
 				pt.Respond(ev.ReqID(), respBody(ev.Body), nil)
 				return nil
 			}})}
@@ -262,12 +296,32 @@ func runC06(c *Ctx, d c06Desc) {
 		who := "e" + strings.TrimPrefix(base, "ext")
 		healthy := ExtOpts{Events: []string{"INVOKE", "SHUTDOWN"}}
 		if gen != 1 {
-			return vh.ExecPlan{Behave: w.ExtLoop(healthy)}
+			o := healthy
+			if d.After == "extcrash" && who == "e0" {
+				o.OnEvent = func(p *vh.Proc, pt *vh.Party, n int, ev *vh.Resp) *vh.Exit {
+					if atomic.LoadInt32(&afterPhase) == 1 && parseExtEvent(ev.Body).EventType == "INVOKE" {
+						return &vh.Exit{Code: 4}
+					}
+					return nil
+				}
+			}
+			return vh.ExecPlan{Behave: w.ExtLoop(o)}
 		}
 		f, ex := faultFor(who)
 		switch f {
 		case "":
-			return vh.ExecPlan{Behave: w.ExtLoop(healthy)}
+			o := healthy
+			if d.ShutdownReport {
+				// a healthy extension of the failing generation: when shut down it reports an exit error and leaves
+				o.OnEvent = func(p *vh.Proc, pt *vh.Party, n int, ev *vh.Resp) *vh.Exit {
+					if parseExtEvent(ev.Body).EventType == "SHUTDOWN" {
+						pt.ExtExitError(pt.ID(), "Extension.TeardownTrouble")
+						return &vh.Exit{Code: 1}
+					}
+					return nil
+				}
+			}
+			return vh.ExecPlan{Behave: w.ExtLoop(o)}
 		case "launchFail":
 			return vh.ExecPlan{Fail: errors.New("fork/exec " + p.Path + ": permission denied")}
 		case "earlyExit":
@@ -492,12 +546,36 @@ func runC06(c *Ctx, d c06Desc) {
 			}
 		}
 	}
+	// 5. a different fault in the recovered generation is reported as what it is
+	if d.After != "" && okRec {
+		atomic.StoreInt32(&afterPhase, 1)
+		aft := invoke("after")
+		atomic.StoreInt32(&afterPhase, 2)
+		if aft == nil {
+			c.SetSample(sampleLog(w, 200))
+			return
+		}
+		aid := reqIDOf(aft)
+		wantType := map[string]string{"rtcrash": "Runtime.ExitError", "extcrash": "Extension.Crash"}[d.After]
+		st := vh.ErrName(aft.Err)
+		c.Check(st == "invokefail", "failure_status", "C06/status/after-"+d.After+"/"+st, fmt.Sprintf("second fault (%s) in the recovered generation: invocation ended %q", d.After, st), nil)
+		var fe funcErr
+		ok := json.Unmarshal(aft.W.Body(), &fe) == nil && fe.ErrorType == wantType && strings.Contains(fe.ErrorMessage, "RequestId: "+aid+" Error:") && aid != ""
+		c.Check(ok, "later_fault_named_as_is", "C06/body/after-"+d.After+"/"+fe.ErrorType, fmt.Sprintf("the fault of the recovered generation (%s) must be named %s with request id %s (first fault was %s by %s, exit error reported during teardown: %v)", d.After, wantType, aid, d.Fault, d.Who, d.ShutdownReport), trunc(aft.W.Body()))
+		fin := invoke("final")
+		if fin == nil {
+			c.SetSample(sampleLog(w, 200))
+			return
+		}
+		c.Check(fin.Err == nil && bytes.Equal(fin.W.Body(), respBody([]byte("event-final"))), "recovers", "C06/no-recovery/after-"+d.After, "the invocation following the second failure did not succeed", vh.ErrName(fin.Err))
+		evs = w.E.Log.Snapshot()
+	}
 	lifecycleOracle(c, w)
 	if staleRequestLeak(w) {
 		c.Taint("stale-inflight-request")
 	}
 	c.SetHooks(hk.Arrived())
-	c.SetTrace(NormTrace(evs, func(e vh.Event) bool {
+	c.SetTrace(d.After+fmt.Sprint(d.ShutdownReport)+NormTrace(evs, func(e vh.Event) bool {
 		return e.Src == "sup" || e.Src == "events" || strings.HasPrefix(e.Src, "caller")
 	})+status+fmt.Sprint(len(body)), true)
 	if c.WantSample || c.Violated() {
